@@ -838,3 +838,5 @@ def run(ctx):
   r8_calibrate_then_plan(ctx)
   r9_signature_subgraph_table(ctx)
   shared.rule_no_swallowed_errors(ctx, 'C10.R10')
+  # every README operator, calibrated and then planned under a * rule of each mode: statistics are never missing (runtime second operands included)
+  shared.rule_operator_sweep(ctx, 'C10.R11')
